@@ -31,7 +31,9 @@ def scenarios(draw):
     noise_free = src.bool(0.5)
     sc = S.gen_discovery(src, n_chroms=(1, 3), genes_per_chrom=(1, 3), novel_per_gene=(0, 2), reads_known=(1, 5),
                          reads_novel=(3, 7), intergenic_p=0.3, max_exons=5, exact=noise_free, delta=4,
-                         overlap_p=0.35, canon_classes=("canon", "canon", "canon", "non"))
+                         overlap_p=0.35, canon_classes=("canon", "canon", "canon", "non"),
+                         novel_edits=("skip", "alt_donor", "alt_acceptor", "alt_first", "alt_last",
+                                      "start_in_intron", "end_in_intron", "start_in_intron", "end_in_intron"))
     sc.pop("truth", None)
     lens = {c[0]: c[1] for c in sc["chroms"]}
     reads = [r for r in sc["reads"] if R.cigar_blocks(r["p"], r["cg"])[-1][1] + 45 < lens[r["c"]]]
@@ -41,7 +43,7 @@ def scenarios(draw):
             if src.bool(0.4):
                 k += 1
                 r = S.noisy_read(src, "x%d" % k, g["chr"], g["strand"], t["exons"],
-                                 src.choice(["shift", "faketerm", "skipmicro", "mmjunction"]))
+                                 src.choice(["shift", "faketerm", "skipmicro", "mmjunction", "termmis"]))
                 if r is not None and R.cigar_blocks(r["p"], r["cg"])[-1][1] + 45 < lens[g["chr"]] and r["p"] > 5:
                     reads.append(r)
     # isoforms with a short 3'-terminal exon that the reads fail to align (tail soft-clipped right after the
